@@ -33,6 +33,7 @@
 
 #include "soplex/spxgithash.h"
 #include "soplex/spxdefines.h"
+#include "soplex/verifhooks.h"
 #include "soplex/basevectors.h"
 #include "soplex/spxsolver.h"
 #include "soplex/slufactor.h"
@@ -119,6 +120,7 @@ namespace soplex
 template <class R>
 class SoPlexBase
 {
+   SOPLEX_VERIF_FRIEND
 public:
 
    ///@name Construction and destruction
